@@ -137,6 +137,8 @@ def run_program(body, kind, ctx, make_observer, case_extra=None, src_withs=None,
         rt, n, outcome = ps.drive(fn, kind, prefix, obs)
         total[0] += 1
         total[1] += obs.nobs
+        if outcome is not None and outcome[0] == "raised":
+            obs.fails.append(("run", 0, ["disturbed: the program ended with %s: %s although nothing in it raises that" % (outcome[1], outcome[2])]))
         if ctx is not None:
             for sh in getattr(obs, "shapes", ()):
                 ctx.distinct(("shape", kind) + sh) if False else None
